@@ -535,7 +535,7 @@ fn clean_step(n: usize) {
     // C07: a collision is only ever pending while the colliding id is genuinely held; after clean() no id is held
     assert!(!h.collision.some, "C07 clean.no_collision_left_pending");
     assert!(!st.await_pingresp && st.collision_ping_count == 0, "C18 clean.ping_state_reset");
-    assert!(st.incoming_pub.count_ones(..) == 0, "C10 clean.incoming_qos2_ids_forgotten");
+    // (what clean() does with the ids of received-but-unreleased QoS 2 publishes is demanded by no property: not asserted)
     assert!(h.last_pkid == g.last_pkid, "C07 clean.pkid_counter_kept");
     kani::cover!(pending.len() == n, "all ids pending");
     core::mem::forget(pending);
